@@ -146,6 +146,36 @@ func c09ECBBOT(env *SymEnv, l int, choices []byte) {
 	}
 	env.Valid("C09.ecbbot/receiver's key = sender's key of the chosen branch (every instance, every block)", symalg.And(same...))
 	env.Witness("C09.ecbbot/receiver's key ≠ sender's key of the other branch", symalg.And(other...))
+	// conversion to byte outputs (what VSOT consumers and the OT extension take): the keyed hash runs
+	// for real over the interned encodings of the scalar outputs, so provably equal scalars give
+	// equal bytes, and the per-(instance, block) framing must agree on both sides
+	key := []byte("0123456789abcdef-c09-ecbbot-bits")
+	for _, byteLen := range []int{16, 32} {
+		rb, e1 := rout.ToBitsOutput(byteLen, key)
+		sb, e2 := sout.ToBitsOutput(byteLen, key)
+		if !env.Check("C09.ecbbot/ToBitsOutput-ok", e1 == nil && e2 == nil, fmt.Sprint(e1, e2)) {
+			return
+		}
+		env.Check("C09.ecbbot/bits: shapes and choices preserved", len(rb.Messages) == xi && len(sb.Messages) == xi && bytes.Equal(rb.Choices, choices), "wrong shapes")
+		seen := map[string]string{}
+		for i := 0; i < xi; i++ {
+			c := choiceBit(choices, i)
+			for j := 0; j < l; j++ {
+				env.Check("C09.ecbbot/bits: receiver's pad = sender's pad of the chosen branch (every instance, every block)", len(rb.Messages[i][j]) == byteLen && bytes.Equal(rb.Messages[i][j], sb.Messages[i][c][j]), fmt.Sprintf("instance %d block %d choice %d", i, j, c))
+				env.Check("C09.ecbbot/bits: receiver's pad ≠ sender's pad of the other branch", !bytes.Equal(rb.Messages[i][j], sb.Messages[i][1-c][j]), fmt.Sprintf("instance %d block %d", i, j))
+				for b := 0; b < 2; b++ {
+					k, id := string(sb.Messages[i][b][j]), fmt.Sprintf("(%d,%d,%d)", i, b, j)
+					if prev, dup := seen[k]; dup {
+						env.Check("C09.ecbbot/bits: sender pads of different (instance, branch, block) differ", false, prev+" = "+id)
+					}
+					seen[k] = id
+				}
+			}
+		}
+	}
+	_, e16 := rout.ToBitsOutput(15, key)
+	_, k16 := sout.ToBitsOutput(16, key[:15])
+	env.Check("C09.ecbbot/bits: output length < 16 or key < 16 bytes refused", e16 != nil && k16 != nil, "accepted")
 	env.Reach("ecbbot-done")
 }
 
@@ -177,6 +207,20 @@ func c09RVOLE(env *SymEnv, l int) {
 	if !env.Check("C09.rvole/round2-ok", err == nil, fmt.Sprint(err)) {
 		return
 	}
+	// a second Bob over the SAME stream, delivered in short reads (one byte per Read call, a legal
+	// io.Reader): his multiplication input must be the same — every raw read has to be a full read
+	{
+		ctxs2, err := makeContexts(fmt.Sprintf("c09/rvole/%d", l), []sharing.ID{1, 2})
+		if err == nil {
+			rd := env.R.ReaderTwin("bob", -1)
+			rd.SetShortReads(1)
+			if bob2, err := rvole_bbot.NewBob(ctxs2[2], suite, rd); err == nil {
+				if _, b2, err := bob2.Round2(r1); env.Check("C09.rvole/Bob over a source with short reads completes round 2", err == nil, fmt.Sprint(err)) {
+					env.Valid("C09.rvole/Bob's input does not depend on how the source chunks its bytes (short reads)", env.EqF(b, b2))
+				}
+			}
+		}
+	}
 	a := make([]sF, l)
 	for i := range a {
 		a[i] = env.Scalar(fmt.Sprintf("a%d", i))
@@ -203,8 +247,9 @@ func C09Cases(tier string, seed int64) []Case {
 	chs := [][]byte{{0x00}, {0xff}, {0xa5}, {0x01}, {0x80}}
 	ls := []int{1, 2, 3}
 	if tier == "thorough" {
+		// (L = 4 exceeds the engine's fork-depth bound in the ECBBOT harness — one measure-zero fork per
+		// instance and block — and was reported inconclusive; the thorough tier widens Xi instead)
 		chs = append(chs, []byte{0x3c, 0xc3}, []byte{0xff, 0x00}, []byte{0x12, 0x34, 0x56})
-		ls = append(ls, 4)
 	}
 	for _, ch := range chs {
 		for _, l := range ls {
@@ -225,5 +270,6 @@ func C09Cases(tier string, seed int64) []Case {
 		cases = append(cases, Case{ID: fmt.Sprintf("C09/rvole-bbot/L=%d", l), Desc: map[string]any{"protocol": "rvole/bbot over ecbbot", "L": l, "inputs and randomness": "symbolic", "xi": "kappa + 2·80 OT instances"},
 			Sym: func(e *SymEnv) { c09RVOLE(e, ll) }, MustReach: []string{"rvole-done"}, NoConcreteValidation: true})
 	}
+	cases = append(cases, c09RVOLESoftCases(tier)...)
 	return cases
 }
